@@ -24,7 +24,8 @@ PROP = "C06"
 LEVEL = "fault_enumeration"
 RULE = ("(a) enumerated delivery patterns through a real node's update(): messages of 2..4 fragments (thorough 2..6), every "
         "fragment {dropped, once, twice} (3^f), every single adjacent transposition, a full replay of the stream, all "
-        "interleavings of two senders' streams (2-3 fragments each) with equal and with different frame ids, three senders "
+        "interleavings of two senders' streams (2-3 fragments each) with equal and with different frame ids, two consecutive "
+        "messages of the same sender with every subset of fragments lost, three senders "
         "round-robin, stray MORE/LAST with no FIRST (incl. ids equal to the node's freshly built cache), each with every "
         "dequeue position; node roles: network node at levels 0..2 and mesh master; (b) seeded full-stack runs: 2-3 child "
         "senders writing fragmented messages concurrently with coinciding or different frame ids under packet/ACK loss. "
@@ -81,6 +82,15 @@ def _enum(tier):
                         seq.append([1, ib])
                         ib += 1
                 cases.append((st, seq, "interleave2"))
+    # two consecutive messages of the SAME sender (different frame ids): every subset of fragments lost
+    for fa, fb in ((2, 2), (2, 3), (3, 2), (3, 3)) if tier == "quick" else ((2, 2), (2, 3), (3, 2), (3, 3), (3, 4), (4, 3), (4, 4)):
+        st = _streams((fa, fb), 2, False)
+        st[1]["sender"] = 0
+        full = [[0, j] for j in range(fa)] + [[1, j] for j in range(fb)]
+        for mask in range(1, 1 << (fa + fb)):
+            seq = [full[k] for k in range(fa + fb) if (mask >> k) & 1]
+            if len(seq) >= 2:
+                cases.append((st, seq, "two_msgs_same_sender"))
     for same in (True, False):
         st = _streams((2, 3, 2), 3, same)
         seq = [[0, 0], [1, 0], [2, 0], [0, 1], [1, 1], [2, 1], [1, 2]]
